@@ -13,6 +13,16 @@ verus! {
 //@extract const bigtools/src/bbi.rs CHROM_TREE_MAGIC
 //@rule R8
 //@end
+// the writer's defaults: not used by the pinned write_chrom_tree (its block size is max(256, count)); in scope so that
+// an edit that starts using them is judged by the layout obligations instead of being refused (unknown name)
+//@extract const bigtools/src/bbi/bbiwrite.rs DEFAULT_BLOCK_SIZE
+//@rule R8
+//@optional
+//@end
+//@extract const bigtools/src/bbi/bbiwrite.rs DEFAULT_ITEMS_PER_SLOT
+//@rule R8
+//@optional
+//@end
 
 /// one chromosome as the replaced prologue hands it to the writing code: (name bytes, id, length)
 pub type Chrom = (Vec<u8>, u32, u32);
